@@ -266,6 +266,7 @@ func Plans() map[string]*Plan {
 		p.Logs = false
 		p.RefsPerTxn = [2]int{1, 8}
 		p.PopularP = 0.3
+		p.WidePopularP = 0.3
 		ps["C11"] = &Plan{Prop: "C11", Level: "exploration",
 			Parts: []Part{turnPart("C11", "S-TURN/refsfor", 4000, 400000, p, RunOpts{DeepReads: true, DeepRefsFor: true})},
 			Rule:  "S-TURN histories with shared object ids, re-pointed and deleted refs, peeled values, object index on/off, small blocks, popular-oid runs; RefsFor on stack view, raw merged sub-ranges and single tables vs filter of the full scan; non-trivial = a table with an object index was queried and a query had hits; distinct = distinct event hash",
